@@ -7,6 +7,7 @@ import (
 	"reflect"
 	"runtime"
 	"strconv"
+	"strings"
 	"sync"
 	"time"
 
@@ -134,8 +135,8 @@ func unregister(c interface{}) {
 
 func init() {
 	verifhook.Set(func(point string, args ...interface{}) {
-		if len(args) == 0 {
-			return
+		if len(args) == 0 || !strings.HasPrefix(point, "conn.") {
+			return // observation points of other properties
 		}
 		regMu.Lock()
 		r := reg[args[0]]
